@@ -104,8 +104,19 @@ _CU = {}
 
 def cu():
     if not _CU:
+        import threading
+        import types
         from boltons import cacheutils
-        cacheutils.RLock = sched.CoopRLock          # name looked up by LRI.__init__
+        # whatever name the module uses for its lock class (RLock, Lock, threading.RLock, ...) must give the
+        # cooperative lock, or a contended acquire would block the OS thread under the scheduler
+        shim = types.SimpleNamespace(**{k: getattr(threading, k) for k in dir(threading) if not k.startswith("__")})
+        shim.RLock = shim.Lock = sched.CoopRLock
+        for name, val in list(vars(cacheutils).items()):
+            if val is threading.RLock or val is threading.Lock:
+                setattr(cacheutils, name, sched.CoopRLock)
+            elif val is threading:
+                setattr(cacheutils, name, shim)
+        cacheutils.RLock = sched.CoopRLock
         _CU["m"] = cacheutils
         f = cacheutils.__file__
         _CU["file"] = f[:-1] if f.endswith(".pyc") else f
